@@ -5,7 +5,7 @@ history (Artifacts.tla) maps to concrete files.  Interface edits only touch item
 so every version of every package type-checks against every version of its dependencies; each edit yields an
 interface content never seen before for that package (the model treats versions as injective)."""
 
-IFACE_KINDS = ["addfn", "sig", "field", "variant", "traitmethod", "impl", "removefn", "reorderfields", "reordervariants"]
+IFACE_KINDS = ["addfn", "sig", "field", "variant", "traitmethod", "impl", "removefn", "reorderfields", "reordervariants", "bound"]
 PERMS = [(0, 1, 2), (1, 0, 2), (1, 2, 0), (2, 1, 0), (2, 0, 1), (0, 2, 1)]
 BODY_KINDS = ["const", "let", "rename"]
 IMPL_TARGETS = ["int32", "bool", "string", "int8", "uint8", "int64"]
@@ -47,6 +47,10 @@ def pkg_source(name, deps, iedits=(), bedits=()):
         for m in methods:
             L.append(f"    fn {m}(self: {t}) -> int32 {{ {i + 1} }}")
         L.append("}")
+    # (a bound edit adds one more trait to the bound of an exported generic function: the bound is part of its signature)
+    for i in range(1, 5):
+        L.append(f"trait {name}U{i} {{ fn u{i}(Self) -> int32; }}")
+    L.append(f"fn {p}_gen[T: " + " + ".join([f"{name}T"] + [f"{name}U{i}" for i in range(1, min(n["bound"], 4) + 1)]) + "](x: T) -> int32 { 1 }")
     sig = ["x: int32"] + [f"y{i}: int32" for i in range(1, n["sig"] + 1)]
     L.append(f"fn {p}_sig(" + ", ".join(sig) + ") -> int32 { x }")
     for i in range(1, n["addfn"] + 1):
